@@ -48,9 +48,9 @@ def check(tier, seed, replay=None):
         cases = [c]
     else:
         cases = []
-        plan = [("Knap10.cfg", 6 if tier == "quick" else 40, (1, 12)), ("Knap14.cfg", 4 if tier == "quick" else 30, (1, 16)),
-                ("Knap12i.cfg", 3 if tier == "quick" else 20, (1, 14)),
-                ("Mixed2.cfg", 40 if tier == "quick" else 600, None)]
+        plan = [("Knap10.cfg", 6 if tier == "quick" else 150, (1 if tier == "quick" else 6, 12)), ("Knap14.cfg", 4 if tier == "quick" else 100, (1 if tier == "quick" else 6, 16)),
+                ("Knap12i.cfg", 3 if tier == "quick" else 80, (1 if tier == "quick" else 6, 14)),
+                ("Mixed2.cfg", 40 if tier == "quick" else 3000, None)]
         for cfg, n, sim in plan:
             cs, m = lpcases.family(cfg, "quick", seed, n, sim, module=("KnapGen.tla" if cfg.startswith("Knap") else "LpGen.tla"))
             meta[cfg[:-4]] = m
